@@ -11,10 +11,11 @@ TB = ("Trusted: CBMC 6.11 + kissat; the loop-cut weaver (engine/weave.py; must-f
 claim('C03',
       "Unbounded proof (all lengths <= 2^40 limbs, all limb contents, every permitted overlap) that each of the 14 mpn functions meets its "
       "limb-exact contract: carry/borrow chain at an arbitrary ghost position incl. returned carry, shifted-out bits, copy/compare/zero-test "
-      "relations; loops closed by inductive invariants, no unwinding.",
-      TB + "mpz layer of C03 (mpz_add ... mpz_swap) is covered only as far as the mpz units listed in the evidence are green; "
-      "x86 add/sub_err asm is out of reach.")
-
+      "relations; loops closed by inductive invariants, no unwinding. On top of these contracts: mpz_add, mpz_sub, mpz_add_ui, mpz_sub_ui, mpz_ui_sub, "
+      "mpz_neg, mpz_abs, mpz_set, mpz_swap return the exact signed result limb for limb (carry/borrow chains on the magnitudes, minuend chosen by "
+      "size then by the highest differing limb, size normalised, sign), for every allocation and every alias partition.",
+      TB + "mpz_mul_2exp is NOT decided (no solver verdict for the symbolic limb offset, DESIGN 11.3); the x86 add/sub_err asm files are out of reach. "
+      "mpz sizes are bounded by 2^30-1 limbs (int fields).")
 claim('C10',
       "Unbounded proof of the eight mpn logic functions and mpn_com (pointwise at an arbitrary ghost limb, every permitted overlap) and of "
       "mpn_scan0/scan1 (first 0/1 bit at or after the start, all earlier bits have the other value, at a ghost bit position). mpz_tstbit, mpz_scan0, "
@@ -28,7 +29,7 @@ claim('C11',
       "mpz_fits_*_p, mpz_get_ui/si/ux/sx and mpz_set_ui/si/ux/sx agree with exact 128-bit arithmetic (predicates true exactly on the "
       "representable range); mpz_cmp/mpz_cmpabs/mpn_cmp: sign decided by sizes, else by the highest differing limb (loop closed by invariant).",
       TB + "Four units are proved under two's-complement wrap-around of '-LONG_MIN' (signed-overflow check off, listed in evidence). "
-      "NOT covered: every double conversion (mpz_get_d, mpz_set_d, mpz_cmp_d, mpq_get_d, mpf_get_d), mpq_cmp*, mpq_equal, mpf_cmp*, mpz_sgn (a macro).")
+      "NOT covered: every double conversion (mpz_get_d, mpz_set_d, mpz_cmp_d, mpq_get_d, mpf_get_d, mpf_cmp_d), mpq_cmp*, mpq_equal, mpf_cmp_si, mpz_sgn (a macro).")
 claim('C12',
       "Unbounded limb-exact proofs of mpq_inv (incl. dest==src pointer swap, sign moved to the numerator, DIVIDE_BY_ZERO exactly for 0), "
       "mpq_neg, mpq_abs, mpq_set, mpq_set_z, mpq_set_ui/si, mpq_set_num/den, mpq_get_num/den, mpq_swap: parts copied limb for limb, "
